@@ -369,7 +369,14 @@ fn build_enc_file(sizes: &[usize], pg: &str, offset_index: bool) -> TestFile {
     }
     w.close().unwrap();
     let bytes = Bytes::from(buf);
-    let reader = ParquetRecordBatchReaderBuilder::try_new(bytes.clone()).unwrap().with_batch_size(100_000).build().unwrap();
+    let rb = ParquetRecordBatchReaderBuilder::try_new(bytes.clone()).unwrap();
+    if std::env::var("C06_DUMP_ENC").is_ok() {
+        let rg = rb.metadata().row_group(0);
+        for c in rg.columns() {
+            eprintln!("{} {:?} {:?}", c.column_path(), c.column_type(), c.encodings().collect::<Vec<_>>());
+        }
+    }
+    let reader = rb.with_batch_size(100_000).build().unwrap();
     let mut full = vec![];
     let mut types_ok = true;
     for b in reader {
@@ -1425,6 +1432,9 @@ const LAYOUTS: &[(&str, &str)] = &[
 /// 1024-value batches (levels, dictionary indices, skip loops)
 const BIG_LAYOUT: (&str, &str) = ("1500,1200", "300d");
 
+/// the encoding × target-type grid files (2-3 pages of 40 rows per row group; v1 and v2 pages)
+const ENC_LAYOUTS: &[(&str, &str)] = &[("80", "40E"), ("80", "40E2"), ("40,80", "40E"), ("40,80", "40E2"), ("100", "25E2")];
+
 /// a complete `read` case line (predicate bitmasks computed from the predicate specs)
 #[allow(clippy::too_many_arguments)]
 fn mk_read(mode: &str, sizes_s: &str, pg: &str, idx: usize, groups: &[usize], sel: &str, pol: &str, preds: &[&str], off: &str, lim: &str, bs: usize, proj: &str) -> String {
@@ -1515,6 +1525,39 @@ fn dense_block() -> Vec<(String, String)> {
             }
         }
     }
+    // ---- encoding × type grid: several select/skip runs inside one page, so that every value
+    // decoder's `skip` runs after a prior read and after a prior skip; all columns projected
+    for (sizes_s, pg) in ENC_LAYOUTS.iter() {
+        let sizes = parse_list::<usize>(sizes_s);
+        let groups: Vec<usize> = (0..sizes.len()).collect();
+        let total: usize = sizes.iter().sum();
+        let pats: Vec<(&str, String)> = vec![
+            ("full", "-".to_string()),
+            ("read-skip-read", format!("M:{}", bits(total, &|i| matches!(i % 13, 0 | 1 | 2 | 7 | 8)))),
+            ("skip-read-skip", format!("M3:{}", bits(total, &|i| matches!(i % 11, 2 | 6 | 7)))),
+            ("alt1", format!("M:{}", bits(total, &|i| i % 2 == 0))),
+            ("alt2", format!("M1:{}", bits(total, &|i| i % 4 >= 2))),
+            ("second-of-page", format!("M:{}", bits(total, &|i| i % 40 == 1 || i % 40 == 38))),
+            ("sparse", format!("M:{}", bits(total, &|i| matches!(i, 5 | 17 | 39 | 40 | 41 | 79)))),
+            ("runs", "R:k3,s5,k2,s7,k4,s9,k10,s6,k1,s1,k1,s1,k20".to_string()),
+        ];
+        for (pname, sel) in &pats {
+            for pol in ["s", "m"] {
+                for bs in [1usize, 4, 1024] {
+                    for (mode, idx) in [("sync", 0usize), ("sync", 2), ("push", 2), ("async", 1)] {
+                        if mode == "async" && bs != 4 {
+                            continue;
+                        }
+                        let line = mk_read(mode, sizes_s, pg, idx, &groups, sel, pol, &[], "-", "-", bs, "*");
+                        out.push((line, format!("op:read:{} dense encgrid epat:{} nt", mode, pname)));
+                    }
+                }
+            }
+            // with an offset / limit and a predicate on top
+            let line = mk_read("push", sizes_s, pg, 2, &groups, sel, "m", &["i%3=1"], "1", "9", 4, "*");
+            out.push((line, format!("op:read:push dense encgrid epat:{} nt", pname)));
+        }
+    }
     // ---- end to end: boundary selections on every layout, every entry point
     let mut layouts: Vec<(&str, &str)> = LAYOUTS.to_vec();
     layouts.push(BIG_LAYOUT);
@@ -1556,7 +1599,14 @@ fn dense_block() -> Vec<(String, String)> {
 }
 
 fn gen_read(rng: &mut Rng) -> (String, String) {
-    let (sizes_s, pg) = if rng.chance(1, 60) { BIG_LAYOUT } else { *rng.pick(LAYOUTS) };
+    let (sizes_s, pg) = if rng.chance(1, 60) {
+        BIG_LAYOUT
+    } else if rng.chance(1, 5) {
+        *rng.pick(ENC_LAYOUTS)
+    } else {
+        *rng.pick(LAYOUTS)
+    };
+    let enc = pg.contains('E');
     let sizes = parse_list::<usize>(sizes_s);
     let idx = rng.below(3);
     // row-group choice: all / ordered subset / permuted subset
@@ -1630,7 +1680,7 @@ fn gen_read(rng: &mut Rng) -> (String, String) {
         concat.extend(base..base + sizes[g]);
     }
     for _ in 0..np {
-        let col = *rng.pick(&["i", "a", "s", "l"]);
+        let col = if enc { "i" } else { *rng.pick(&["i", "a", "s", "l"]) };
         let k = match col {
             "l" => 2 + rng.usize(3),
             "s" => 2 + rng.usize(3),
@@ -1659,6 +1709,9 @@ fn gen_read(rng: &mut Rng) -> (String, String) {
             proj.push(c);
         }
     }
+    if enc {
+        proj = vec!["*"];
+    }
     let mut mode = (*rng.pick(&["sync", "sync", "push", "push", "async", "pushr"])).to_string();
     if mode != "sync" && np > 0 && rng.chance(1, 3) {
         // predicate cache disabled / tiny
@@ -1685,7 +1738,8 @@ fn gen_read(rng: &mut Rng) -> (String, String) {
     let mode_tag = mode.split('.').next().unwrap().to_string();
     let cache_tag = if mode.contains(".c") { "pcache:limited " } else { "" };
     let tags = format!(
-        "{}{}op:read:{} groups:{} sel:{}:{} pol:{} preds:{} off:{} lim:{} idx:{} bs:{} proj:{} {}{}",
+        "{}{}{}op:read:{} groups:{} sel:{}:{} pol:{} preds:{} off:{} lim:{} idx:{} bs:{} proj:{} {}{}",
+        if enc { "encgrid " } else { "" },
         cache_tag,
         if proj.contains(&"rn") { "proj:rn " } else { "" },
         mode_tag,
